@@ -869,6 +869,12 @@ def domain_order(M: Model, e: ast.expr, n: str, depth: int = 0) -> tuple[str | N
     order:  'desc' | 'asc' (by specificity) | 'mapping' (order of the alias dict) | 'near' | 'far' (distance from n)"""
     if depth > 8:
         return None, None
+    if n and depth < 4:
+        from .c17_domain import indexed_candidates
+
+        got = indexed_candidates(M, e, n, lambda M_, e_, n_: domain_order(M_, e_, n_, depth + 1))
+        if got is not None:
+            return got  # the aliased modules of the module's top-level package, looked up in an index built with groupby
     if isinstance(e, ast.Call) and isinstance(e.func, ast.Name) and e.func.id in ("list", "tuple", "iter") and len(e.args) == 1 and not e.keywords:
         return domain_order(M, e.args[0], n, depth + 1)
     if isinstance(e, ast.Call) and isinstance(e.func, ast.Name) and e.func.id == "sorted" and len(e.args) == 1:
@@ -1702,6 +1708,9 @@ def _judge_selection(C, ev: Event, sel: Selection, label_names: set[str], has_se
             out.append(("unsure", r1, what_t, f"the match condition `{_show(P)}` is stronger than 'equals or extends by whole components'", sel.where))
         else:
             out.append(("unsure", r1, what_t, f"the match condition `{_show(P)}` is not recognised as a whole-component ancestor test", sel.where))
+    elif domain is not None and domain.startswith("lossy:"):
+        out.append(("bad", r2, "most specific first", f"the candidates for a module are looked up in an index of the aliased modules by top-level package that is built with itertools.groupby over a sequence that is not sorted by that key ({domain[6:]}): groupby only groups consecutive runs, every further run of a package overwrites the one stored before, so aliased modules are missing from the candidates - a module whose nearest aliased ancestor was dropped takes an outer alias or keeps its name", sel.where))
+        return out
     elif domain is not None and domain.startswith("filtered:"):
         flt = M.__dict__.get("_domain_filters", {}).get(domain.split(":", 1)[1], "")
         out.append(("bad", r2, "most specific first", f"the candidates are only the aliased modules with `{flt}` (`{norm(sel.D, 70)}`): an aliased module that fails this test can never be chosen although it may be the nearest aliased ancestor - its sub modules take an outer alias or keep their names", sel.where))
